@@ -10,7 +10,7 @@ from py_gql.utilities import MaxDepthValidationRule
 from .. import gen_exec, ser
 
 PROP = "C19"
-THEOREMS = ["C19_exact", "C19_flagged_iff", "C19_wrap_inline", "C19_total"]
+THEOREMS = ["C19_exact", "C19_flagged_iff", "C19_wrap_inline", "C19_wrap_named", "C19_total", "C19_terminates"]
 AXIOMS_OK = []
 RUN_MODULE = "Run.C19run Exec.Depth"
 AGREE = "agree_C19"
